@@ -605,14 +605,12 @@ class TOCSchemas:
         self, schema_ref: PluginRef, parents: Optional[List[PluginRef]]
     ):
         if parents is None:  # remove schema
-            for parent in self._parents[schema_ref]:
-                if parent in self._schemas:
-                    self._children[parent].remove(schema_ref)
-                elif all(
-                    (child not in self._schemas for child in self._children[parent])
-                ):
-                    del self._parents[parent]
-                    del self._children[parent]
+            # rebuild the tables from the schemas that are still in use
+            # (this is exactly what is reconstructed when opening the container)
+            old_parents = self._parents
+            self._parents, self._children = {}, {}
+            for s_ref in self._schemas:
+                self._update_parents_children(s_ref, old_parents[s_ref])
         else:  # add schema
             for i, parent in enumerate(parents):
                 if parent not in self._parents:
